@@ -281,6 +281,22 @@ def _classify(res, text, meta, js, diags, err, rc):
             if fn:
                 break
         if fn is None:
+            # a failing trait default emitted for a handler the impl does not override (IFMISSING): the obligation
+            # belongs to that (absent) method
+            dflt = None
+            for s_ in spans:
+                if s_.get("line_start", 0) in meta.get("defaults", {}):
+                    dflt = meta["defaults"][s_["line_start"]]
+            if dflt is not None:
+                clause = _clip(_span_text(clause_span)) if clause_span else ""
+                tags = set()
+                if clause_span:
+                    tags |= _tags_for_line(lines, clause_span["line_start"], clause_span.get("line_end"))
+                if not tags:
+                    tags = set(res.unit.properties)
+                res.failures.append(Failure(name, dflt[0], kind, "handler not overridden (the trait's empty default applies)", clause, sorted(tags),
+                                            d.get("rendered", msg), dflt[1], None))
+                continue
             where = prim[0]["line_start"] if prim else "?"
             res.undecided.append(f"proof failure outside extracted code (prelude/lemma, generated line {where}): {_clip(msg)}")
             continue
